@@ -1,9 +1,12 @@
 /-
   C14 — recorded histories equal the true state trajectory; time averages are exact
-  Property theorems only (the process-layer model is CimbaModel/Sim; helper lemmas in CimbaModel/Sim/*).
+  Property theorems only (the process-layer model is CimbaModel/Sim; helper lemmas in CimbaModel/Sim/S2*).
 -/
 import CimbaModel.Sim.Basic
 import CimbaModel.HashHeap.Orders
+import CimbaModel.Sim.S2HistAll
+import CimbaModel.Sim.S2TimeAvg
+import CimbaModel.Sim.S2GrowRes
 
 namespace CimbaModel.Props.C14
 open CimbaModel CimbaModel.Sim CimbaModel.Event CimbaModel.Generated CimbaModel.HashHeap.SpecOrders
@@ -14,5 +17,180 @@ theorem record_resource_off (w : World) (r : Nat) (x : Res) (hx : w.res[r]? = so
     recordRes w r = w := by
   unfold recordRes
   simp [hx, hrec]
+
+/-! ### the invariant -/
+
+/-- what `HistInv` says, for each of the five kinds of recordable objects: the sample times of the history are
+    nondecreasing and not after the current time, and **while recording is switched on the history is non-empty and its
+    last sample carries the current state value** (1/0 for a held / free resource, the amount in use of a pool, the level
+    of a buffer, the length of an object queue or priority queue) -/
+theorem history_invariant_unfolded {w : World} (hi : HistInv w) :
+    (∀ (i : Nat) (x : Res), w.res[i]? = some x → TimesOK x.hist w.now ∧
+      (x.recording = true → ∃ s, x.hist.back? = some s ∧ s.1 = (if x.holder.isSome then 1 else 0))) ∧
+    (∀ (i : Nat) (x : Pool), w.pools[i]? = some x → TimesOK x.hist w.now ∧
+      (x.recording = true → ∃ s, x.hist.back? = some s ∧ s.1 = (x.inUse : Int))) ∧
+    (∀ (i : Nat) (x : Buf), w.bufs[i]? = some x → TimesOK x.hist w.now ∧
+      (x.recording = true → ∃ s, x.hist.back? = some s ∧ s.1 = (x.level : Int))) ∧
+    (∀ (i : Nat) (x : OQ), w.oqs[i]? = some x → TimesOK x.hist w.now ∧
+      (x.recording = true → ∃ s, x.hist.back? = some s ∧ s.1 = (x.items.length : Int))) ∧
+    (∀ (i : Nat) (x : PQ), w.pqs[i]? = some x → TimesOK x.hist w.now ∧
+      (x.recording = true → ∃ s, x.hist.back? = some s ∧ s.1 = (x.queue.count : Int))) :=
+  ⟨fun i x hx => hi.2.1 i x hx, fun i x hx => hi.2.2.1 i x hx, fun i x hx => hi.2.2.2.1 i x hx,
+    fun i x hx => hi.2.2.2.2.1 i x hx, fun i x hx => hi.2.2.2.2.2 i x hx⟩
+
+/-- `TimesOK`: sample times nondecreasing (pairwise, in history order) and none after `now` -/
+theorem times_ok_unfolded (h : Array (Int × Int)) (now : Int) :
+    TimesOK h now ↔ (h.toList.map (·.2)).Pairwise (· ≤ ·) ∧ ∀ s ∈ h.toList, s.2 ≤ now := Iff.rfl
+
+/-- one dispatched event — the clock advance (which never goes backwards) and everything the resumed process does until
+    it yields — keeps the invariant -/
+theorem history_invariant_dispatch {w w' : World} (hi : HistInv w) (hd : dispatch w = some w') : HistInv w' :=
+  HistInv.preserved.dispatch hi hd
+
+/-- hence it holds in every reachable state -/
+theorem history_invariant_reachable {w : World} (hi : HistInv w) (fuel : Nat) : HistInv (runAll fuel w) :=
+  HistInv.preserved.runAll fuel w hi
+
+/-- it holds initially: empty histories, recording off, nothing scheduled in the past -/
+theorem history_invariant_initial (w : World) (ht : ∀ e ∈ w.ev.pending, w.ev.now ≤ e.d)
+    (hr : ∀ (i : Nat) (x : Res), w.res[i]? = some x → x.hist = #[] ∧ x.recording = false)
+    (hp : ∀ (i : Nat) (x : Pool), w.pools[i]? = some x → x.hist = #[] ∧ x.recording = false)
+    (hb : ∀ (i : Nat) (x : Buf), w.bufs[i]? = some x → x.hist = #[] ∧ x.recording = false)
+    (ho : ∀ (i : Nat) (x : OQ), w.oqs[i]? = some x → x.hist = #[] ∧ x.recording = false)
+    (hk : ∀ (i : Nat) (x : PQ), w.pqs[i]? = some x → x.hist = #[] ∧ x.recording = false) : HistInv w := by
+  have e : TimesOK #[] w.now := ⟨by simp, by simp⟩
+  refine ⟨ht, ?_, ?_, ?_, ?_, ?_⟩
+  · intro i x hx; obtain ⟨h1, h2⟩ := hr i x hx
+    exact ⟨by show TimesOK x.hist _; rw [h1]; exact e, fun h => by have h' : x.recording = true := h; rw [h2] at h'; cases h'⟩
+  · intro i x hx; obtain ⟨h1, h2⟩ := hp i x hx
+    exact ⟨by show TimesOK x.hist _; rw [h1]; exact e, fun h => by have h' : x.recording = true := h; rw [h2] at h'; cases h'⟩
+  · intro i x hx; obtain ⟨h1, h2⟩ := hb i x hx
+    exact ⟨by show TimesOK x.hist _; rw [h1]; exact e, fun h => by have h' : x.recording = true := h; rw [h2] at h'; cases h'⟩
+  · intro i x hx; obtain ⟨h1, h2⟩ := ho i x hx
+    exact ⟨by show TimesOK x.hist _; rw [h1]; exact e, fun h => by have h' : x.recording = true := h; rw [h2] at h'; cases h'⟩
+  · intro i x hx; obtain ⟨h1, h2⟩ := hk i x hx
+    exact ⟨by show TimesOK x.hist _; rw [h1]; exact e, fun h => by have h' : x.recording = true := h; rw [h2] at h'; cases h'⟩
+
+/-- the clock only moves in `dispatch`, and never backwards -/
+theorem clock_monotone {q q' : EvQ} {t : HTag} (hq : TimeOk q) (he : executeNext q = some (t, q')) :
+    TimeOk q' ∧ q.now ≤ q'.now := timeOk_tick hq he
+
+/-! ### `history_complete_step`: every state change made while recording is followed, in the same primitive, by one
+    `record*`, which appends exactly one sample (the value after the change, the current time); a composite operation
+    may leave the last sample stale in between, `record*` restores the invariant whatever happened before it -/
+
+/-- the generic `record`: from "everything fine except that object `i` has not recorded its latest change" to
+    "everything fine" -/
+theorem record_restores {α : Type} (R : RecOps α) {now : Int} {i : Nat} {a : Array α} (h : OKexc R now i a) :
+    ArrAll (RecOK R now) (genRecord R a i now) := genRecord_restores R h
+
+/-- … appending exactly one sample while recording -/
+theorem record_appends_one {α : Type} (R : RecOps α) {a : Array α} {i : Nat} {x : α} (hx : a[i]? = some x)
+    (hrec : R.recording x = true) (now : Int) :
+    ∃ y, (genRecord R a i now)[i]? = some y ∧ R.hist y = (R.hist x).push (R.val x, now) ∧ R.val y = R.val x :=
+  genRecord_appends R hx hrec now
+
+/-- … and nothing while recording is off -/
+theorem record_appends_none {α : Type} (R : RecOps α) {a : Array α} {i : Nat} {x : α} (hx : a[i]? = some x)
+    (hrec : R.recording x = false) (now : Int) : genRecord R a i now = a := genRecord_off R hx hrec now
+
+/-- the five `record*` functions of the model are this generic `record` -/
+theorem record_functions_are_generic (w : World) (i : Nat) :
+    (recordRes w i).res = genRecord resOps w.res i w.now ∧
+    (recordPool w i).pools = genRecord poolOps w.pools i w.now ∧
+    (recordBuf w i).bufs = genRecord bufOps w.bufs i w.now ∧
+    (recordOQ w i).oqs = genRecord oqOps w.oqs i w.now ∧
+    (recordPQ w i).pqs = genRecord pqOps w.pqs i w.now :=
+  ⟨recordRes_eq w i, recordPool_eq w i, recordBuf_eq w i, recordOQ_eq w i, recordPQ_eq w i⟩
+
+theorem record_pool_appends {w : World} {i : Nat} {x : Pool} (hx : w.pools[i]? = some x) (hrec : x.recording = true) :
+    ∃ y, (recordPool w i).pools[i]? = some y ∧ y.hist = x.hist.push ((x.inUse : Int), w.now) ∧
+      y.inUse = x.inUse ∧ y.recording = true := recordPool_appends hx hrec
+
+theorem record_buffer_appends {w : World} {i : Nat} {x : Buf} (hx : w.bufs[i]? = some x) (hrec : x.recording = true) :
+    ∃ y, (recordBuf w i).bufs[i]? = some y ∧ y.hist = x.hist.push ((x.level : Int), w.now) ∧
+      y.level = x.level ∧ y.recording = true := recordBuf_appends hx hrec
+
+/-- an instance end to end: the pass of a buffer get that takes `rem` units while recording appends exactly one sample:
+    (the level after the change, the current time) -/
+theorem buffer_get_records_change {w : World} (p : Pid) {b : Nat} {x : Buf} (hx : w.bufs[b]? = some x) (rem got : Nat)
+    (hge : x.level ≥ rem) (hrec : x.recording = true) :
+    ∃ y, (bufGetLoop w p b rem got).1.bufs[b]? = some y ∧
+      y.hist = x.hist.push (((x.level - rem : Nat) : Int), w.now) ∧ y.level = x.level - rem :=
+  bufGet_records p hx rem got hge hrec
+
+/-- **no change goes unrecorded**: between any two reachable states in which an object (here: a buffer; the statement is
+    generic, `RecOK.change_recorded`) is recording, a different level means a different history — so the step function
+    defined by the history cannot miss a change of the true trajectory -/
+theorem buffer_change_is_recorded {w w' : World} (hi : HistInv w) (hi' : HistInv w') {b : Nat} {x x' : Buf}
+    (hx : w.bufs[b]? = some x) (hx' : w'.bufs[b]? = some x') (hr : x.recording = true) (hr' : x'.recording = true)
+    (hv : x.level ≠ x'.level) : x.hist ≠ x'.hist :=
+  RecOK.change_recorded bufOps (hi.2.2.2.1 b x hx) (hi'.2.2.2.1 b x' hx') hr hr' (by
+    show (x.level : Int) ≠ (x'.level : Int)
+    omega)
+
+theorem pool_change_is_recorded {w w' : World} (hi : HistInv w) (hi' : HistInv w') {pl : Nat} {x x' : Pool}
+    (hx : w.pools[pl]? = some x) (hx' : w'.pools[pl]? = some x') (hr : x.recording = true) (hr' : x'.recording = true)
+    (hv : x.inUse ≠ x'.inUse) : x.hist ≠ x'.hist :=
+  RecOK.change_recorded poolOps (hi.2.2.1 pl x hx) (hi'.2.2.1 pl x' hx') hr hr' (by
+    show (x.inUse : Int) ≠ (x'.inUse : Int)
+    omega)
+
+/-- **histories only grow, and only by samples stamped with the current time**: across one dispatched event every
+    recordable object keeps its place, and its history afterwards is its history before followed by samples whose time is
+    the time of that event (`w'.now`).  No sample is ever altered or removed.  Together with `history_invariant_*` (the last
+    sample carries the current value whenever recording is on) this is the statement that the step function defined by
+    the history is the true trajectory: between events nothing changes, and at each event the history is extended up to
+    the value the object has when the event is over. -/
+theorem history_only_grows {w w' : World} (hd : dispatch w = some w') :
+    (∀ (i : Nat) (x : Res), w.res[i]? = some x → ∃ x', w'.res[i]? = some x' ∧
+      ∃ ext, x'.hist.toList = x.hist.toList ++ ext ∧ ∀ s ∈ ext, s.2 = w'.now) ∧
+    (∀ (i : Nat) (x : Pool), w.pools[i]? = some x → ∃ x', w'.pools[i]? = some x' ∧
+      ∃ ext, x'.hist.toList = x.hist.toList ++ ext ∧ ∀ s ∈ ext, s.2 = w'.now) ∧
+    (∀ (i : Nat) (x : Buf), w.bufs[i]? = some x → ∃ x', w'.bufs[i]? = some x' ∧
+      ∃ ext, x'.hist.toList = x.hist.toList ++ ext ∧ ∀ s ∈ ext, s.2 = w'.now) ∧
+    (∀ (i : Nat) (x : OQ), w.oqs[i]? = some x → ∃ x', w'.oqs[i]? = some x' ∧
+      ∃ ext, x'.hist.toList = x.hist.toList ++ ext ∧ ∀ s ∈ ext, s.2 = w'.now) ∧
+    (∀ (i : Nat) (x : PQ), w.pqs[i]? = some x → ∃ x', w'.pqs[i]? = some x' ∧
+      ∃ ext, x'.hist.toList = x.hist.toList ++ ext ∧ ∀ s ∈ ext, s.2 = w'.now) := by
+  cases hex : executeNext w.ev with
+  | none => unfold dispatch at hd; rw [hex] at hd; cases hd
+  | some r =>
+    obtain ⟨t, ev'⟩ := r
+    obtain ⟨⟨n1, g1⟩, ⟨_, g2⟩, ⟨_, g3⟩, ⟨_, g4⟩, ⟨_, g5⟩⟩ := dispatch_grows hex hd
+    refine ⟨fun i x hx => ?_, fun i x hx => ?_, fun i x hx => ?_, fun i x hx => ?_, fun i x hx => ?_⟩
+    · obtain ⟨x', hx', e⟩ := g1 i x hx; rw [n1]; exact ⟨x', hx', e⟩
+    · obtain ⟨x', hx', e⟩ := g2 i x hx; rw [n1]; exact ⟨x', hx', e⟩
+    · obtain ⟨x', hx', e⟩ := g3 i x hx; rw [n1]; exact ⟨x', hx', e⟩
+    · obtain ⟨x', hx', e⟩ := g4 i x hx; rw [n1]; exact ⟨x', hx', e⟩
+    · obtain ⟨x', hx', e⟩ := g5 i x hx; rw [n1]; exact ⟨x', hx', e⟩
+
+/-! ### the time-weighted mean computed from a history is the exact time average -/
+
+/-- for samples (x₀,t₀),…,(xₙ,tₙ) with nondecreasing times, the running weighted mean with weights tᵢ₊₁ − tᵢ (updated
+    incrementally, observation by observation) equals ∫/(tₙ − t₀), the integral being the area under the step function
+    the samples define; the total weight is the length of the recording interval -/
+theorem time_weighted_mean_is_time_average (s : List (ℚ × ℚ)) (hnd : TimeAvg.Nondecreasing s) (t0 : ℚ)
+    (hs : ∃ x rest, s = (x, t0) :: rest) (hpos : t0 < TimeAvg.lastTime 0 s) :
+    (TimeAvg.wmean (TimeAvg.weighted s)).2 = TimeAvg.stepIntegral s / (TimeAvg.lastTime 0 s - t0) ∧
+    (TimeAvg.wmean (TimeAvg.weighted s)).1 = TimeAvg.lastTime 0 s - t0 :=
+  ⟨TimeAvg.time_weighted_mean_is_time_average s hnd t0 hs hpos, (TimeAvg.wmean_spec s hnd t0 hs).1⟩
+
+/-! ### the hypotheses are satisfiable -/
+
+example : HistInv { bufs := #[{ cap := 7, front := 0, rear := 1 }] } := by
+  apply history_invariant_initial
+  · intro e he; cases he
+  · intro i x hx; simp at hx
+  · intro i x hx; simp at hx
+  · intro i x hx
+    rcases i with _ | i
+    · simp at hx; subst hx; exact ⟨rfl, rfl⟩
+    · simp at hx
+  · intro i x hx; simp at hx
+  · intro i x hx; simp at hx
+
+example : TimeAvg.Nondecreasing [(3, 0), (5, 2), (4, 5)] ∧ (0 : ℚ) < TimeAvg.lastTime 0 [(3, 0), (5, 2), (4, 5)] := by
+  simp [TimeAvg.Nondecreasing, TimeAvg.lastTime]; norm_num
 
 end CimbaModel.Props.C14
